@@ -16,6 +16,7 @@ from Cython.Compiler.Visitor import TreeVisitor
 from Cython.Compiler import Nodes, ExprNodes
 
 PURE_BUILTINS = {'range', 'min', 'max', 'abs', 'len', 'int', 'float', 'prange'}
+PRANGE_NAMES = {'prange'}     # extended per file with the aliases of `from cython.parallel import prange as X`
 
 
 def _fname(node):
@@ -114,7 +115,8 @@ class _Collect(TreeVisitor):
         it = node.iterator
         seq = getattr(it, 'sequence', it)
         fn = getattr(seq, 'function', None)
-        if fn is not None and getattr(fn, 'name', None) == 'prange':
+        if fn is not None and (getattr(fn, 'name', None) in PRANGE_NAMES or
+                               getattr(fn, 'attribute', None) == 'prange'):
             self.pranges.append(node)
         self.visit(it)
         self.visit(node.body)
@@ -182,12 +184,56 @@ def _summary(node):
     return c, nonlocal_stores
 
 
+def _aliases(src):
+    """names under which `prange` / `parallel` of cython.parallel are visible in the file"""
+    import re
+    pr, par = {'prange'}, {'parallel'}
+    for m in re.finditer(r'^\s*from\s+cython\.parallel\s+c?import\s+(.+)$', src, flags=re.M):
+        for item in m.group(1).replace('(', ' ').replace(')', ' ').split(','):
+            toks = item.split()
+            if not toks:
+                continue
+            name, alias = toks[0], (toks[2] if len(toks) >= 3 and toks[1] == 'as' else toks[0])
+            if name == 'prange':
+                pr.add(alias)
+            if name == 'parallel':
+                par.add(alias)
+            if name == '*':
+                pr.add('prange')
+                par.add('parallel')
+    return pr, par
+
+
+def _code_lines(src):
+    """source lines without comments, strings of one line and import lines (for the textual cross-checks)"""
+    import re
+    out = []
+    in_doc = False
+    for ln in src.split('\n'):
+        if ln.count('"""') % 2 == 1 or ln.count("'''") % 2 == 1:
+            in_doc = not in_doc
+            continue
+        if in_doc:
+            continue
+        ln = re.sub(r'#.*$', '', ln)
+        ln = re.sub(r'"[^"]*"|\'[^\']*\'', '""', ln)
+        if re.match(r'^\s*(from|import|cimport)\b', ln):
+            continue
+        out.append(ln)
+    return out
+
+
 def describe(path):
+    global PRANGE_NAMES
+    import re
     src = open(path).read()
+    pr_names, par_names = _aliases(src)
+    PRANGE_NAMES = pr_names
     tree = parse_from_strings(path.rsplit('/', 1)[-1].split('.')[0], src)
     fs = _Funcs()
     fs.visit(tree)
     out = []
+    n_found = [0]
     for fname, fnode in fs.funcs.items():
         c = _Collect()
         c.visit(fnode.body)
@@ -217,12 +263,24 @@ def describe(path):
                 ','.join('%s:%s' % o for o in others) or '-',
                 str(red_reads),
                 ';'.join('%s:%d:%d:%d:%d' % c for c in callees) or '-'])
+            n_found[0] += 1
             out.append({'function': fname, 'loopvar': loopvar, 'reductions': reductions, 'other_stores': others,
                         'reduction_types': red_types, 'reduction_reads': red_reads, 'callees': callees, 'line': line})
+    # textual cross-checks: every `for ... in <something>prange(` of the source must have produced a descriptor (a
+    # spelling the tree walk does not recognise would otherwise be invisible), and no `parallel(...)` block
+    code = _code_lines(src)
+    pat = r'\bfor\b.*\bin\b.*(\b(' + '|'.join(re.escape(x) for x in sorted(pr_names)) + r')|\.prange)\s*\('
+    n_text = sum(1 for ln in code if re.search(pat, ln))
+    if n_text != n_found[0]:
+        out.append({'function': '<%d prange loop(s) in the text, %d in the tree>' % (n_text, n_found[0]), 'line': None})
+    ppat = r'(\b(' + '|'.join(re.escape(x) for x in sorted(par_names)) + r')|\.parallel)\s*\('
+    n_par = sum(1 for ln in code if re.search(ppat, ln))
+    if n_par:
+        out.append({'function': '<%d parallel() block(s)>' % n_par, 'line': None})
     return out
 
 
 if __name__ == '__main__':
     import sys
     for d in describe(sys.argv[1]):
-        print(d['line'])
+        print(d['line'] if d['line'] else d['function'])
